@@ -6,7 +6,7 @@ namespace LLFree
 open Prog
 
 section
-variable {c : Cfg} {H : Nat → Prop} {m : Mem}
+variable {c : Cfg} {H : Nat → Nat} {m : Mem}
 
 theorem AllocEffect.trans_same {a b d : Mem} {f order : Nat} (h1 : SameAlloc a b) (h2 : AllocEffect c b d f order) :
     AllocEffect c a d f order := by
@@ -81,7 +81,7 @@ theorem searchAndReserve_spec (ok : CfgOk c) (inv : UpperInv0 c H m) (order cls 
     exact second m ⟨inv, SameAlloc.refl _⟩
 
 /-- what `steal_any` / `demote_any` hand over: `n` frames of a reserved tree, now unaccounted -/
-def Stolen (c : Cfg) (H : Nat → Prop) (m : Mem) (tree : Option Nat) (n : Nat) (row : Nat) (m' : Mem) : Prop :=
+def Stolen (c : Cfg) (H : Nat → Nat) (m : Mem) (tree : Option Nat) (n : Nat) (row : Nat) (m' : Mem) : Prop :=
   (∀ t, tree = some t → row / c.geom.treeRows = t) ∧ row / c.geom.treeRows < c.ntrees ∧
   UpperInv c H (gset (fun _ => 0) (row / c.geom.treeRows) n) (fun _ => False) m' ∧ SameAlloc m m'
 
